@@ -198,7 +198,7 @@ def record(c, resume, mode, seed, workers=0):
         # an explicit refusal by the constructor itself (raise / assert in interleaved_sampler.py)
         import traceback
         last = traceback.extract_tb(e.__traceback__)[-1]
-        if last.filename.endswith("interleaved_sampler.py") and last.name == "__init__":
+        if last.filename.endswith("interleaved_sampler.py"):  # raised by the sampler itself while constructing
             return [dict(a="refuse", full=False, idx=-1, src=-1, pos=-1, col=-9)]
         return [dict(a="err:" + type(e).__name__, full=False, idx=-1, src=-1, pos=-1, col=-9)]
     except Exception as e:  # any other constructor failure is not an allowed answer
